@@ -194,3 +194,53 @@ Example C15_related_names_text :
     = (bs "CN=Acme CA,O=Acme\, Inc.,C=US", bs "CN=Acme CA,C=US,O=Acme\, Inc.") /\
   cert_names ([], Some two_rdns) ([], Some one_rdn) = (bs "O=a\+b,CN=x", bs "CN=x+O=a\+b").
 Proof. exact related_names_text. Qed.
+
+(* ---- several names rendered in one process (render_all: the loop of a caller over
+   names.FromRDNSequence; render_all_raw: over names.FromRawDN) ----
+   rendering a list of names is the map of rendering one name: nothing is carried over *)
+Theorem C15_render_all_is_map : forall ns, render_all ns = map render_dn ns.
+Proof. exact render_all_map. Qed.
+Print Assumptions C15_render_all_is_map.
+
+Theorem C15_render_all_raw_is_map : forall ns,
+  render_all_raw ns = map (fun n => from_raw_dn (fst n) (snd n)) ns.
+Proof. exact render_all_raw_map. Qed.
+Print Assumptions C15_render_all_raw_is_map.
+
+(* independent of repetition: a name occurring twice, with anything before, between and after,
+   is shown with its own text at both places *)
+Theorem C15_render_all_repeat : forall pre mid post n,
+  nth_error (render_all (pre ++ n :: mid ++ n :: post)) (length pre) = Some (render_dn n) /\
+  nth_error (render_all (pre ++ n :: mid ++ n :: post)) (length pre + 1 + length mid) = Some (render_dn n).
+Proof. exact render_all_repeat. Qed.
+Print Assumptions C15_render_all_repeat.
+
+(* independent of order: in two different sequences, at whatever position, the same text *)
+Theorem C15_render_all_position : forall pre post pre' post' n,
+  nth_error (render_all (pre ++ n :: post)) (length pre) = Some (render_dn n) /\
+  nth_error (render_all (pre' ++ n :: post')) (length pre') = Some (render_dn n).
+Proof. exact render_all_position. Qed.
+Print Assumptions C15_render_all_position.
+
+Theorem C15_render_all_permutation : forall ns ms,
+  Permutation.Permutation ns ms -> Permutation.Permutation (render_all ns) (render_all ms).
+Proof. exact render_all_perm. Qed.
+Print Assumptions C15_render_all_permutation.
+
+(* THE PROPERTY for a sequence: every text reads back as its own name *)
+Theorem C15_sequence_roundtrip : forall ns, Forall name_ok ns ->
+  map parse_rdns (render_all ns) = map reads_as ns.
+Proof. exact render_all_roundtrip. Qed.
+Print Assumptions C15_sequence_roundtrip.
+
+Theorem C15_sequence_roundtrip_raw : forall ns : list decoded_name, Forall (fun n => name_ok (snd n)) ns ->
+  map parse_rdns (render_all_raw (map as_raw ns)) = map (fun n => reads_as (snd n)) ns.
+Proof. exact render_all_raw_roundtrip. Qed.
+Print Assumptions C15_sequence_roundtrip_raw.
+
+(* attributes that collide under the key "dotted OID followed by the value": serialNumber=0123
+   and uniqueMember=123, one after the other, both orders, and in one RDN *)
+Example C15_colliding_names_text :
+  render_all [[[serial_0123]]; [[member_123]]; [[serial_0123]]; [[member_123; serial_0123]]]
+  = [bs "serialNumber=0123"; bs "uniqueMember=123"; bs "serialNumber=0123"; bs "uniqueMember=123+serialNumber=0123"].
+Proof. exact colliding_names_text. Qed.
